@@ -21,7 +21,7 @@ meta = {
         "how": "tools/confirm_seed.sh in a scratch worktree: go build ./...; demonstration test without the change (must pass) and with it (must fail); existing tests of the touched packages with the change",
         "demo_without_change_tail": tail("confirm_without.txt", 3),
         "demo_with_change_tail": [l for l in tail("confirm_with.txt", 400) if l.startswith(("--- FAIL", "FAIL", "ok"))][:6],
-        "existing_tests_with_change": "internal/ctlog: every test passes except TestSequenceLargeLog, which exceeds its own 15 s sequencing timeout under the machine load of this session on the unmodified tree as well (seed author's runs + integrator's run); see README.md",
+        "existing_tests_with_change": ([l for l in tail("confirm_existing.txt", 400) if l.startswith(("--- FAIL", "FAIL", "ok"))][:6] or ["(no test files)"]) + ["run with -skip 'TestSequenceLargeLog|TestCCADBRoots' (both fail on the unmodified tree in this sandbox, see BASELINE always_fail)"],
     },
     "check": {"command": "VERIF_REPO=<worktree with patch> ./check %s --tier quick (tools/eval_seed.sh)" % prop, "verdict": verdict},
 }
